@@ -71,6 +71,10 @@ class PDDLFunction:
 
         :param value: the value to set to the function.
         """
+        if isinstance(value, float) and value == 0:
+            # -0.0 equals 0.0 but prints differently, which made equal states compare as different.
+            value = 0.0
+
         self.stored_value = value
 
     @property
